@@ -1,5 +1,5 @@
 (* Model of the history-driven ML-surrogate samplers
-     MLSurrogateSampler.sample_batch / sample_candidates   (black_it/samplers/surrogate.py:68-130)
+     MLSurrogateSampler.sample_batch / sample_candidates   (black_it/samplers/surrogate.py:73-135)
      RandomUniformSampler.sample_batch                      (black_it/samplers/random_uniform.py:31-52)  -- the pool
      RandomForestSampler.fit                                (black_it/samplers/random_forest.py:94-110)
      XGBoostSampler._clip_losses / fit                      (black_it/samplers/xgboost.py:93-132, repaired in 893b4f5)
@@ -63,14 +63,14 @@ Section Surrogate.
 
   Variable Surr : Type.                           (* the fitted surrogate (self._classifier, ...) *)
   Variable St : Type.                             (* the sampler's generator state *)
-  (* surrogate.py:68-84  self.sample_candidates(pool_size, search_space, existing_points, existing_losses):
+  (* surrogate.py:73-89  self.sample_candidates(pool_size, search_space, existing_points, existing_losses):
      handed the live arrays *)
   Variable draw_pool : St -> nat -> list (list num) -> history -> list point * St * history.
-  (* surrogate.py:121    self.fit(existing_points, existing_losses): handed the live arrays *)
+  (* surrogate.py:126    self.fit(existing_points, existing_losses): handed the live arrays *)
   Variable fit : St -> history -> Surr * St * history.
-  (* surrogate.py:124    self.predict(candidates): not handed the history *)
+  (* surrogate.py:129    self.predict(candidates): not handed the history *)
   Variable predict : Surr -> list point -> list P.
-  (* surrogate.py:127    np.argsort(predictions) *)
+  (* surrogate.py:132    np.argsort(predictions) *)
   Variable argsort : list P -> list nat.
 
   (* what the intermediate values of one call were (observed by the harness) *)
@@ -82,8 +82,10 @@ Section Surrogate.
     t_selected : list point                       (* candidates[sorting_indices][:batch_size], before the snap *)
   }.
 
-  (* surrogate.py:112-130, statement by statement.  The pool is drawn first, then the surrogate is fitted, then the
-     WHOLE un-snapped pool is predicted, and only the selected rows are snapped (line 130). *)
+  (* surrogate.py:117-135, statement by statement.  The pool is drawn first, then the surrogate is fitted, then the
+     WHOLE un-snapped pool is predicted, and only the selected rows are snapped (line 135).
+     The constructor (since b8551a2) rejects candidate_pool_size < batch_size; a subclass overriding sample_candidates
+     can still return fewer rows, hence `firstn` and `min k |pool|`. *)
   Definition sample_batch (k pool_size : nat) (grids : list (list num)) (h : history) (st : St)
     : list point * history * St * sb_trace :=
     let '(cands, st1, h1) := draw_pool st pool_size grids h in
